@@ -509,6 +509,8 @@ func (g *Gen) newTx() {
 			if spec, ok := g.spend(asset, common.OutputTypeWithdrawalClaim, hex.EncodeToString(g.r.Bytes(70)), []string{g.submits[g.r.Intn(len(g.submits))]}); ok {
 				g.submit(spec, false)
 			}
+		} else if spec, ok := g.spend(asset, common.OutputTypeWithdrawalSubmit, "", nil); ok {
+			g.submit(spec, false)
 		}
 	default:
 		// node operations: pledge, then accept / cancel of the pledging node, or remove
@@ -858,11 +860,11 @@ func main() {
 	for _, n := range []int{1, 2, 5} {
 		everyPosition(c, c.Rng.Fork(fmt.Sprintf("pos%d", n)), n)
 	}
-	n := c.Scale(10, 300)
+	n := c.Scale(6, 200)
 	for i := 0; i < n; i++ {
 		history(c, c.Rng.Fork(fmt.Sprintf("h%d", i)), 0)
 	}
-	nb := c.Scale(1, 12)
+	nb := c.Scale(1, 8)
 	for i := 0; i < nb; i++ {
 		size := 255
 		if i%3 == 1 {
